@@ -357,7 +357,8 @@ impl CountersManager {
         key_func: Option<impl Fn(&mut AtomicBuffer)>,
         label_rs: &str,
     ) -> Result<i32, AeronError> {
-        let counter_id = self.next_counter_id();
+        // All arguments are validated before a counter id is taken, so that a failed allocation
+        // leaves the free list, the high water mark and the buffers untouched.
 
         // Try to convert Rust str in to C compatible string
         let conv_result = CString::new(label_rs);
@@ -372,10 +373,21 @@ impl CountersManager {
             return Err(IllegalArgumentError::AllocateLabelTooLong.into());
         }
 
-        self.check_counters_capacity(counter_id)?;
+        if key_opt.is_some() && key_func.is_some() {
+            return Err(IllegalArgumentError::AllocateKeyIsAmbiguous.into());
+        }
+
+        // In original code log key is truncated to MAX_KEY_LENGTH and no error produced.
+        // In Rust implementation we'll return error in such situation.
+        if let Some(key) = key_opt {
+            if key.len() > MAX_KEY_LENGTH as usize {
+                return Err(IllegalArgumentError::AllocateKeyIsTooLong.into());
+            }
+        }
+
+        let counter_id = self.next_counter_id()?;
 
         let record_offset = CountersReader::metadata_offset(counter_id);
-        self.check_meta_data_capacity(record_offset)?;
 
         let mut record = self.reader.metadata_buffer.get::<CounterMetaDataDefn>(record_offset);
 
@@ -385,17 +397,7 @@ impl CountersManager {
         // Needed to put back changed fields.
         self.reader.metadata_buffer.put::<CounterMetaDataDefn>(record_offset, record);
 
-        if key_opt.is_some() && key_func.is_some() {
-            return Err(IllegalArgumentError::AllocateKeyIsAmbiguous.into());
-        }
-
         if let Some(key) = key_opt {
-            // In original code log key is truncated to MAX_KEY_LENGTH and no error produced.
-            // In Rust implementation we'll return error in such situation.
-            if key.len() > MAX_KEY_LENGTH as usize {
-                return Err(IllegalArgumentError::AllocateKeyIsTooLong.into());
-            }
-
             self.reader.metadata_buffer.put_bytes(record_offset + *KEY_OFFSET, key);
         }
 
@@ -441,7 +443,7 @@ impl CountersManager {
         self.reader.counter_value(id)
     }
 
-    fn next_counter_id(&mut self) -> i32 {
+    fn next_counter_id(&mut self) -> Result<i32, AeronError> {
         let now_ms = (self.clock)();
 
         // Try to find counter ID which we allowed to reuse (based on reuse deadline)
@@ -461,13 +463,16 @@ impl CountersManager {
                 .values_buffer
                 .put_ordered::<u64>(CountersReader::counter_offset(counter_id), 0);
 
-            return counter_id;
+            return Ok(counter_id);
         }
 
+        // The high water mark only moves when the slot it names exists in both buffers.
         let ret_id = self.high_water_mark;
+        self.check_counters_capacity(ret_id)?;
+        self.check_meta_data_capacity(CountersReader::metadata_offset(ret_id))?;
         self.high_water_mark += 1;
 
-        ret_id
+        Ok(ret_id)
     }
 
     fn check_counters_capacity(&self, counter_id: i32) -> Result<i32, AeronError> {
